@@ -116,6 +116,12 @@ package dnsutil
 //@   loop 1 invariant backslashes + bsRunZ(name, j) == bsRunZ(name, i - 1)
 //@   loop 1 decreases j + 1
 //@
+//@ # C08: ExtractRRSet writes nothing the caller can see (the result is a fresh slice); WHICH records it returns is
+//@ # not under contract (its completeness for the requested type is covered by the package's own tests only)
+//@ func ExtractRRSet
+//@   requires rrWF(in)
+//@   modifies nothing
+//@
 //@ func NameInZone
 //@   modifies nothing
 //@   ensures result == inZone(name, zone)
